@@ -130,8 +130,8 @@ class DecisionLogger(DecisionLogSink):
             if callable(dbg):
                 # Keep legacy message for compatibility with existing tests
                 dbg("DecisionLogger: failed to apply redactions", exc_info=True)
-            # Preserve previous behavior: emit original env as-is
-            safe["env"] = env_obj
+            # Fail closed: the unredacted env must not reach the log when redaction failed
+            safe["env"] = {"_redaction_failed": True}
 
         # Render message
         if self.as_json:
